@@ -22,6 +22,10 @@ RULE = ("A case is a result of 1-6 pages with 0-4 rows each (empty first/middle/
         "one(), index / equality (list mode), partial iteration.  "
         "Generated extras: a page whose first attempt fails and is retried, a page whose first attempt is answered only "
         "after a speculative attempt completed the page and the next page was requested, tuple/dict/named row factories.  "
+        "A further family makes a page fetch FAIL (two attempts in flight, one answered UNAVAILABLE and rethrown) with "
+        "the other attempt's rows arriving late (before / during / never before the retry) and lets the application retry "
+        "the fetch (fetch_next_page or start_fetching_next_page again): the retried request must carry the state of the last "
+        "DELIVERED page.  "
         "Oracle: rows seen == concatenation of the pages consumed, every request for page k carries exactly the state "
         "returned with page k-1, pages are requested in order without gaps or repeats beyond the scheduled retries, nothing "
         "is requested after the page without paging state.  Non-trivial: at least 3 pages of which a non-final one is empty, "
@@ -298,6 +302,177 @@ def _run(case, ctx, sim):
     ctx.nontrivial((P >= 3 and empty_mid) or bool(flaky & set(range(P))) or bool(slow & set(range(P))))
 
 
+# --------------------------------------------------------------------------- a failed page fetch, retried
+def interpret_retry(case, ctx):
+    sim = U.Sim(tape=case.get("tape", []), granularity=case.get("gran", "blocking"))
+    try:
+        with sim:
+            _run_retry(case, ctx, sim)
+    except U.StepBudgetExceeded:
+        ctx.stats.inconclusive += 1
+        ctx.label("inconclusive:step-budget")
+
+
+def _run_retry(case, ctx, sim):
+    """A page fetch (not the first) has two attempts in flight (speculative execution at delay 0): one is
+    answered UNAVAILABLE and the policy rethrows, so the fetch FAILS; the other attempt's rows arrive late
+    (before the application retries the fetch, while the retry is in flight, or never).  The application
+    retries the fetch on the same result.  Every request must carry the state returned with the last page
+    that was DELIVERED, and the rows must be exactly the server's."""
+    from cassandra import Unavailable
+    from cassandra.cluster import ExecutionProfile
+    from cassandra.policies import ConstantSpeculativeExecutionPolicy, RetryPolicy
+    from cassandra.query import SimpleStatement, dict_factory, named_tuple_factory, tuple_factory
+    net = sim.net
+    sizes = case["sizes"]
+    P = len(sizes)
+    fail = set(i for i in case["fail"] if 1 <= i < P)
+    late_when = case["late_when"]
+    how = case["how"]
+    factory = {"named": named_tuple_factory, "tuple": tuple_factory, "dict": dict_factory}[case.get("factory", "named")]
+
+    class Rethrow(RetryPolicy):
+        def on_unavailable(self, *a, **kw):
+            return (RetryPolicy.RETHROW, None)
+    prof = ExecutionProfile(load_balancing_policy=U.fixed_plan_policy(), row_factory=factory, retry_policy=Rethrow(),
+                            request_timeout=None,
+                            speculative_execution_policy=ConstantSpeculativeExecutionPolicy(0.0, 32))
+    cluster, session, nodes = F.build(sim, 2, prof)
+    pages, n = [], 0
+    for i, sz in enumerate(sizes):
+        pages.append([[n + j, "p%dr%d" % (i, j)] for j in range(sz)])
+        n += sz
+    truth = [tuple(r) for pg in pages for r in pg]
+    state_of = dict((i, ("st%d" % i).encode()) for i in range(1, P))
+    page_of = dict((v, k) for k, v in state_of.items())
+    reqs, parked, failed_once, first_round = [], [], set(), {}
+
+    def send_page(node, conn, req, i):
+        if not (conn.is_closed or conn.srv_closed):
+            U.answer(node, conn, req, "rows", rows=pages[i], paging_state=state_of.get(i + 1))
+
+    def release_parked():
+        for item in list(parked):
+            parked.remove(item)
+            send_page(*item)
+
+    def user(node, conn, req):
+        if not F.is_user(req) or conn.is_control_connection:
+            return None
+        ps = req.get("paging_state")
+        if ps is not None and ps not in page_of:
+            reqs.append(("unknown", ps))
+            return ("error", "invalid", {})
+        i = 0 if ps is None else page_of[ps]
+        reqs.append(i)
+        if len(reqs) > 6 * P + 12:
+            return ("drop",)
+        if i in fail and i not in failed_once:
+            c = first_round.get(i, 0)
+            first_round[i] = c + 1
+            if c == 0:
+                parked.append((node, conn, req, i))     # its rows will come late
+                return ("drop",)
+            failed_once.add(i)
+            return ("error", "unavailable", {})
+        if late_when == "during_retry" and any(it[3] <= i for it in parked):
+            release_parked()
+        send_page(node, conn, req, i)
+        return ("drop",)
+
+    for nd in nodes:
+        nd.on_request = user
+    stmt = SimpleStatement(F.USER_Q, fetch_size=2, is_idempotent=True)
+    seen = []
+    info = {"failures": 0}
+
+    def after_failure():
+        info["failures"] += 1
+        if late_when == "before_retry":
+            release_parked()
+            sim.vtime.sleep(0.01)       # let the event loop deliver the late rows before the retry
+
+    def client():
+        if how == "manual":
+            rs = session.execute(stmt)
+            seen.extend(_norm(r) for r in rs.current_rows)
+            for _ in range(6 * P + 12):
+                if not rs.has_more_pages:
+                    return
+                try:
+                    rs.fetch_next_page()
+                except Unavailable:
+                    after_failure()
+                    continue
+                seen.extend(_norm(r) for r in rs.current_rows)
+        else:
+            fut = session.execute_async(stmt)
+            seen.extend(_norm(r) for r in fut.result().current_rows)
+            for _ in range(6 * P + 12):
+                if not fut.has_more_pages:
+                    return
+                fut.start_fetching_next_page()
+                try:
+                    rs = fut.result()
+                except Unavailable:
+                    after_failure()
+                    continue
+                seen.extend(_norm(r) for r in rs.current_rows)
+        raise RuntimeError("runaway: more pages after %d fetches" % (6 * P + 12))
+
+    with ctx.driver(["C18.retry-fetch", "how=%s" % how]):
+        sim.call(client)
+    sim.settle()
+    release_parked()
+    sim.settle()
+    sim.advance(0.5)
+    if ctx._failures:
+        return
+    feat = ["how=%s" % how, "late=%s" % late_when]
+    unknown = [r for r in reqs if not isinstance(r, int)]
+    dedup = [g for g, _ in itertools.groupby(reqs)]
+    if unknown:
+        ctx.fail(["C18.retry-fetch", "unknown-paging-state"] + feat, "unknown paging state sent: %r" % (unknown[:2],))
+    elif dedup != list(range(P)):
+        ctx.fail(["C18.retry-fetch", "requests"] + feat,
+                 "pages requested %r, expected each of %r once the previous one was delivered (fetches of %r failed once; "
+                 "sizes %r): a request did not carry the state of the last delivered page" % (reqs, list(range(P)), sorted(fail), sizes))
+    if seen != truth:
+        kind = "duplicated" if len(seen) > len(set(seen)) else "lost"
+        ctx.fail(["C18.retry-fetch", "rows-" + kind] + feat,
+                 "rows seen %r, server sent %r (fetches of pages %r failed once and were retried)" % (seen, truth, sorted(fail)))
+    if info["failures"] != len(fail):
+        ctx.label("failures-differ")
+    ctx.label("retry-fetch", "how=%s" % how, "late=%s" % late_when, "failed-fetches=%d" % info["failures"])
+    ctx.nontrivial(info["failures"] >= 1)
+
+
+def _retry_chunks(tier):
+    return [{"how": h, "late_when": w} for h in ("manual", "future") for w in ("before_retry", "during_retry", "never")]
+
+
+def _retry_cases(chunk):
+    for ln in (2, 3):
+        for seq in itertools.product(range(3), repeat=ln):
+            fails = [[1]] if ln == 2 else [[1], [2], [1, 2]]
+            for f in fails:
+                yield {"sizes": list(seq), "fail": f, "late_when": chunk["late_when"], "how": chunk["how"],
+                       "factory": "named", "tape": [], "gran": "blocking"}
+
+
+def s_retry_case(gran):
+    return st.fixed_dictionaries({
+        "sizes": st.lists(st.sampled_from([0, 1, 2, 3]), min_size=2, max_size=5),
+        "fail": st.lists(st.integers(1, 4), min_size=1, max_size=3, unique=True),
+        "late_when": st.sampled_from(["before_retry", "before_retry", "during_retry", "never"]),
+        "how": st.sampled_from(["manual", "future"]),
+        "factory": st.sampled_from(["named", "tuple", "dict"]),
+        "tape": st.lists(st.integers(0, 3), max_size=30 if gran == "locks" else 6),
+        "gran": st.just(gran),
+    })
+
+
+
 # --------------------------------------------------------------------------- enumeration
 def _seqs(max_len, max_size):
     for ln in range(1, max_len + 1):
@@ -349,4 +524,7 @@ def parts(tier):
                  quick_shards=1, thorough_shards=8),
         hyp_part("locks", lambda: s_case("locks"), interpret, tier, quick=40, thorough=500,
                  quick_shards=1, thorough_shards=4),
+        EnumPart("failed-fetch", _retry_chunks(tier), _retry_cases, interpret_retry),
+        hyp_part("failed-fetch-generated", lambda: s_retry_case("blocking" if tier == "quick" else "locks"), interpret_retry,
+                 tier, quick=60, thorough=600, quick_shards=1, thorough_shards=4),
     ]
